@@ -719,6 +719,7 @@ class World:
             f.__qualname__ = v.__qualname__
             f.__doc__ = v.__doc__
             f.__dict__.update(v.__dict__)
+            f.__symx_clone__ = True
             self._clones[key] = (v, f)
         return self._clones[key][1]
 
